@@ -571,3 +571,139 @@ def run_c03(chk):
                             f"{cname}/{sname} gives {r[1]!r:.200}, expected {want!r}",
                             {"ext": True, "probe": F59_SIG if f59 else "mixin-enum", "enum": E.__name__, "member": repr(m),
                              "position": pos, "converter": cname + "/" + sname, "got": repr(r[1])[:300]})
+
+
+# ------------------------------------------------------------------------------------------------ Literal[...] over enum members
+# IMPLEMENTATION-ONLY stream (no model): `Literal[...]` types whose arguments are members of enum classes WITH a data-type
+# mix-in (IntEnum, (str, Enum), StrEnum -- their members compare equal to their values and to equal-valued members of
+# other classes; the core worlds only have plain `Enum` classes, whose members are equal to nothing else) next to plain
+# `Enum` members and plain values.  Several literals whose argument tuples are position-wise EQUAL (`Literal[Color.RED]`,
+# `Literal[Fruit.APPLE]`, `Literal[1]`) are structured one after another on the same converters in the same process, so
+# that anything remembered per literal under a key that only looks at `==` / `hash` of the arguments shows.
+
+def _literal_enum_families():
+    import enum
+
+    class Color(enum.IntEnum):
+        RED = 1
+        GREEN = 2
+
+    class Fruit(enum.IntEnum):
+        APPLE = 1
+        PEAR = 2
+
+    class Suit(str, enum.Enum):
+        HEARTS = "h"
+        SPADES = "s"
+
+    class Shape(str, enum.Enum):
+        HEXAGON = "h"
+        SQUARE = "s"
+
+    class Plain(enum.Enum):
+        ONE = 1
+        TWO = 2
+
+    class Other(enum.Enum):
+        UN = 1
+        DEUX = 2
+
+    fams = [[Color, Fruit, Plain, Other], [Suit, Shape]]
+    if hasattr(enum, "StrEnum"):
+        class Tag(enum.StrEnum):
+            H = "h"
+            S = "s"
+        fams[1].append(Tag)
+    return fams
+
+
+def _lit_conforms(value, args):
+    """is `value` one of the literal's arguments: the member itself / a plain value of the same class"""
+    import enum
+    for a in args:
+        if isinstance(a, enum.Enum):
+            if value is a:
+                return True
+        elif type(value) is type(a) and value == a:
+            return True
+    return False
+
+
+def _lit_key(a):
+    import enum
+    return a.value if isinstance(a, enum.Enum) else a
+
+
+def run_enum_literals(chk, n_rounds, prop):
+    """prop C02: an accepted result is one of the literal's arguments (top level, as a class field, as a list element);
+    C01: structure(unstructure(a)) is a for every argument a (keys pairwise different);
+    C04: detailed and fast validation agree;  C06: Converter and BaseConverter agree."""
+    import typing
+    import attrs
+    import cattrs
+    rng = chk.rng
+    fams = _literal_enum_families()
+    for _ in range(n_rounds):
+        fam = rng.choice(fams)
+        plain_vals = [m.value for m in fam[0]] + (["x", "y"] if isinstance(list(fam[0])[0].value, str) else [7, 9])
+        # a shape (which positions hold a member, which a plain value), then several literals of that shape over
+        # different classes of the family: position-wise equal argument tuples
+        n_args = rng.randint(1, 3)
+        idx = rng.sample(range(len(plain_vals)), n_args)
+        shape = [(i, rng.random() < 0.65 and i < 2) for i in idx]        # (value index, is a member?)
+        if not any(m for _, m in shape):
+            shape[0] = (shape[0][0] % 2, True)
+        lits = []
+        for _k in range(rng.randint(2, 4)):
+            args = tuple(list(rng.choice(fam))[i] if mem else plain_vals[i] for i, mem in shape)
+            lits.append(args)
+        if rng.random() < 0.5:
+            lits.append(tuple(plain_vals[i] for i, _m in shape))           # the same shape without any member
+        convs = [(cn, dv, cls(detailed_validation=dv)) for cn, cls in (("Converter", cattrs.Converter), ("BaseConverter", cattrs.BaseConverter))
+                 for dv in (True, False)]
+        payloads = plain_vals + [3, "junk", None, 1.5, (), b"h"]
+        for args in lits:
+            L = typing.Literal[args]
+            Holder = attrs.make_class("LitHolder", {"f": attrs.field(type=L)})
+            keys_distinct = len({(_lit_key(a).__class__, _lit_key(a)) for a in args}) == len(args) and \
+                len({_lit_key(a) for a in args}) == len(args)
+            chk.note("ext-stream:enum-literal:" + "+".join(sorted({type(a).__mro__[1].__name__ if hasattr(a, "value") else "plain" for a in args})))
+            for p in payloads:
+                res = {}
+                for cn, dv, conv in convs:
+                    for pos, call, pick in (("top", lambda: conv.structure(p, L), lambda r: r),
+                                            ("field", lambda: conv.structure({"f": p}, Holder), lambda r: r.f),
+                                            ("list", lambda: conv.structure([p], typing.List[L]), lambda r: r[0])):
+                        r = _try(call)
+                        got = ("ok", pick(r[1])) if r[0] == "ok" else ("err",)
+                        res[(cn, dv, pos)] = got
+                        chk.count(f"ext:enum-literal:{args!r}:{p!r}:{cn}:{dv}:{pos}", sample=None)
+                        case = {"ext": True, "probe": "enum-literal", "literal": repr(args), "payload": repr(p),
+                                "converter": f"{cn}/{'detailed' if dv else 'fast'}", "position": pos, "got": repr(got)[:200]}
+                        if prop == "C02" and got[0] == "ok" and not _lit_conforms(got[1], args):
+                            chk.violation(f"C02 oracle (enum-literal stream, implementation only): structure({p!r}, Literal{list(args)}) "
+                                          f"at position {pos} on {cn}/{'detailed' if dv else 'fast'} returned {got[1]!r}, which is "
+                                          "not one of the literal's arguments", case)
+                for cn, dv, conv in convs:
+                    for pos in ("top", "field", "list"):
+                        a, b = res[(cn, dv, pos)], res[(cn, not dv, pos)]
+                        same_out = a[0] == b[0] and (a[0] == "err" or a[1] is b[1] or (type(a[1]) is type(b[1]) and a[1] == b[1]))
+                        if prop == "C04" and dv and not same_out:
+                            chk.violation(f"C04 oracle (enum-literal stream): modes disagree on structure({p!r}, Literal{list(args)}) "
+                                          f"[{cn} {pos}]: detailed={a!r} fast={b!r}",
+                                          {"ext": True, "probe": "enum-literal", "literal": repr(args), "payload": repr(p)})
+                        c = res[("BaseConverter" if cn == "Converter" else "Converter", dv, pos)]
+                        same_eng = a[0] == c[0] and (a[0] == "err" or a[1] is c[1] or (type(a[1]) is type(c[1]) and a[1] == c[1]))
+                        if prop == "C06" and cn == "Converter" and not same_eng:
+                            chk.violation(f"C06 oracle (enum-literal stream): engines disagree on structure({p!r}, Literal{list(args)}) "
+                                          f"[{'detailed' if dv else 'fast'} {pos}]: Converter={a!r} BaseConverter={c!r}",
+                                          {"ext": True, "probe": "enum-literal", "literal": repr(args), "payload": repr(p)})
+            if prop == "C01" and keys_distinct:
+                for a in args:
+                    for cn, dv, conv in convs:
+                        r = _try(lambda: conv.structure(conv.unstructure(a, unstructure_as=L), L))
+                        chk.count(f"ext:enum-literal-roundtrip:{args!r}:{a!r}:{cn}:{dv}", sample=None)
+                        if r[0] != "ok" or not _lit_conforms(r[1], (a,)):
+                            chk.violation(f"C01 oracle (enum-literal stream, implementation only): round trip of {a!r} as Literal{list(args)} "
+                                          f"on {cn}/{'detailed' if dv else 'fast'} gives {r!r:.200}",
+                                          {"ext": True, "probe": "enum-literal", "literal": repr(args), "value": repr(a)})
